@@ -40,6 +40,9 @@ def main():
         if rc:
             print(o)
             return 2
+        # the generated, git-ignored version module is not part of a fresh worktree
+        if os.path.exists("/repo/spec_classes/_version.py"):
+            shutil.copy("/repo/spec_classes/_version.py", os.path.join(wt, "spec_classes", "_version.py"))
         env = dict(os.environ, PYTHONPATH=wt, PYTHONDONTWRITEBYTECODE="1")
         # demo on the clean tree must pass
         rc, o = sh([PY, os.path.abspath(demo)], cwd=wt, env=env, timeout=300)
